@@ -255,14 +255,12 @@ func (s *Session) GetActiveStreamCount() int {
 // OpenStream is used to create a new stream
 func (s *Session) OpenStream() (*Stream, error) {
 	if s.IsClosed() {
-		// Close publishes `shutdown` before it stores shutdownErr
-		s.shutdownLock.Lock()
-		err := s.shutdownErr
-		s.shutdownLock.Unlock()
-		if err == nil {
-			err = ErrSessionShutdown
+		// Close publishes `shutdown` before it stores shutdownErr.
+		// shutdownLock isn't taken here: the teardown holds it while it waits for running stream callbacks.
+		if err := s.shutdownErr; err != nil {
+			return nil, err
 		}
-		return nil, err
+		return nil, ErrSessionShutdown
 	}
 	if !s.IsHealthy() {
 		return nil, ErrSessionUnhealthy
